@@ -153,8 +153,12 @@ pub fn run(rec: &mut Recorder, w: &mut World, tier: &str, seed: u64) {
         rec.begin();
         let mut shadow = gen_lines(&mut rng, k);
         let m = model_of(k, E_ALLOW, false, "", false);
-        if new_enforcer(rec, w, &m, "memory", &shadow, "", false) != "ok" { continue; }
-        let mut descr = vec![format!("start {} with {:?}", k.name, shadow)];
+        // every other history on a CachedEnforcer: the decisions observed while the stray edits were in place must not be served
+        // after the manager has been handed back
+        let cached = it % 2 == 1;
+        rec.exec(w, &format!("e.cached\t{}", cached));
+        if new_enforcer(rec, w, &m, "memory", &shadow, "", false) != "ok" { rec.exec(w, "e.cached\tfalse"); continue; }
+        let mut descr = vec![format!("start {}{} with {:?}", k.name, if cached { " (cached)" } else { "" }, shadow)];
         rec.exec(w, "e.keeprm");
         for _ in 0..rng.below(3) {
             let gi = rng.below(k.g.len());
@@ -176,6 +180,7 @@ pub fn run(rec: &mut Recorder, w: &mut World, tier: &str, seed: u64) {
         let _ = observe(rec, w, k);
         descr.push(format!("set_role_manager(the same handle) -> {}", rec.exec(w, "e.setrm\tkept")));
         compare(rec, w, k, &shadow, None, &descr, "installed-role-manager-edited-and-handed-back");
+        rec.exec(w, "e.cached\tfalse");
         rec.nontrivial_case(&descr.join("|"));
     } }
     // (1b) set_role_manager while a stored grouping rule cannot be linked (the rebuild fails), the bad rule removed
